@@ -12,6 +12,7 @@ from contracts.posix_shell import frag, has_crlf, has_char, real_sh
 import bfg9000.backends.make.syntax as msyn
 from bfg9000.safe_str import shell_literal, literal, jbos
 from contracts import fragments as FR
+from contracts import posix_shell as PS
 from bfg9000.backends.make.syntax import Syntax
 
 BS = ord('\\')
@@ -173,7 +174,8 @@ class EscapeStr(Contract):
                 'make_assignment_value_reads_back': z3.Implies(
                     z3.Not(has_char('#', s)),
                     T.AND(st2[0] == N, st2[2] == 1, T.cat(out2, T.rep(BS, st2[1])) == s)),
-                'first_char_kept': z3.Implies(z3.Length(s) > 0, T.AND(z3.Length(rt) > 0, rt[0] == s[0]))}
+                'first_char_kept': z3.Implies(z3.Length(s) > 0, T.AND(z3.Length(rt) > 0, rt[0] == s[0])),
+                'text_is_dollar_doubling': rt == FR.dol(s)}
 
     def result_value(self, I, a):
         return fresh_sym('mesc', 'str')
@@ -181,6 +183,12 @@ class EscapeStr(Contract):
     def proof(self, p, a, r, name, case):
         rt = M.sym_str(r)
         sc = M.sym_str(a.string)
+        if name == 'text_is_dollar_doubling':
+            from contracts.ninja import fold_of
+            fo = fold_of(rt)
+            if fo is not None:
+                p.use(FR.same_cmap_lemma(fo[0], FR.dollar2, 'make').inst(u=fo[1]))
+            return p.qed()
         kind = {'make_reads_target_back': 'target', 'make_reads_dependency_back': 'dependency',
                 'make_reads_call_argument_back': 'function', 'make_recipe_text_reads_back': 'recipe',
                 'make_assignment_value_reads_back': 'assign', 'first_char_kept': 'first'}[name]
@@ -234,6 +242,7 @@ class Write(Contract):
     def cases(self):
         cs = ['%s/%s' % (k, sx) for k in make_write_kinds() for sx in self.SYNTAXES]
         cs += ['jbos/%s/%s' % (sx, sq) for sx in self.SYNTAXES for sq in ('quote', 'inner', 'none')]
+        cs += ['str/shell/inner', 'path/shell/str', 'path/shell/var+str', 'path/shell/var']
         return cs
 
     def loops(self):
@@ -244,6 +253,14 @@ class Write(Contract):
 
     def apply_at_call(self, I, bound, site, frame):
         thing = bound['thing']
+        if isinstance(thing, Obj) and thing.cls is jbos and isinstance(thing.attrs.get('_jbos__bits'), tuple):
+            esc = False
+            for k, bit in enumerate(thing.attrs['_jbos__bits']):
+                b2 = dict(bound)
+                b2['thing'] = bit
+                e = self.apply_at_call(I, b2, '%s.bit%d' % (site, k), frame)
+                esc = M.mk_bool(T.OR(T.zbool(M.lift(esc)), T.zbool(M.lift(e))))
+            return esc
         if isinstance(thing, Sym) and isinstance(thing.ty, tuple) and thing.ty[0] == 'opaque':
             fns = FR.frag_fns('make', bound['syntax'], FR.sq_tag(bound.get('shell_quote')))
             st = bound['self'].attrs['stream']
@@ -253,7 +270,56 @@ class Write(Contract):
 
     def case_in_property(self, case, pid):
         sx = case.split('/')[1]
+        if case.startswith('path/') or case == 'str/shell/inner':
+            return pid in ('C01', 'C04')
         return sx in {'C01': ('shell', 'clean', 'function'), 'C04': ('target', 'dependency', 'function')}.get(pid, (sx,))
+
+    READER = 'make'
+
+    def is_path(self, a):
+        return isinstance(a.thing, Obj) and a.thing.attrs.get('is_path_param')
+
+    def opaque_calls(self):
+        from bfg9000.platforms.basepath import BasePath
+
+        def realize(I, args, kwargs, node):
+            a = self.cur
+            if not self.is_path(a):
+                raise OutOfSubset('realize() outside the path cases')
+            I.events.append(('realize', args, dict(kwargs)))
+            rz, V = Sym(a.rz, 'str'), Obj(literal, {'string': Sym(a.V, 'str')})
+            if a.shape == 'str':
+                return rz
+            if a.shape == 'var':
+                return V
+            return Obj(jbos, {'_jbos__bits': (V, rz)})
+        return {BasePath.__dict__['realize']: realize}
+
+    def var_ok(self, a):
+        V, pm = a.V, a.pm
+        n = z3.Length(V)
+        return z3.And(n >= 3, V[0] == ord('$'), V[n - 1] != ord("'"), PS.reads(self.READER, V, pm), FR.all_markers(pm))
+
+    def ghosts_for(self, callee, a, frame, site):
+        if isinstance(callee, PS.WrapQuotes):
+            me = self.cur
+            pre, pm = (T.empty(), T.empty()) if me.shape == 'str' else (me.V, me.pm)
+            m = T.empty() if me.shape == 'var' else me.rz
+            return {'m': m, 'pre': pre, 'pm': pm, 'reader': self.READER}
+        return None
+
+    def side_proof(self, p, a, kind, name, case):
+        if case.startswith('path/') and 'wrap_quotes' in name:
+            p.use(PS.L_sq_identity.inst(u=a.rz))
+            p.use(PS.L_inert_no_quote.inst(u=a.rz))
+        p.qed()
+
+    def proof(self, p, a, r, name, case):
+        if case.startswith('path/'):
+            p.use(PS.L_inert.inst(u=a.rz))
+            p.use(PS.L_reader_dollar[self.READER].inst(u=a.rz))
+            p.use(PS.L_markers_sq.inst(u=a.pm))
+        p.qed()
 
     def params(self, cx, case):
         kind, sx = case.split('/')[:2]
@@ -261,6 +327,16 @@ class Write(Contract):
         cx.ghost('buf0', buf0)
         selfv = Obj(msyn.Writer, {'stream': PStream(Sym(buf0, 'str')), 'path_vars': None})
         self.cur_sq = 'quote'
+        if case == 'str/shell/inner':
+            self.cur_sq = 'inner'
+            return {'self': selfv, 'thing': cx.str('thing'), 'syntax': Syntax.shell, 'shell_quote': FR.sq_fn('inner')}
+        if kind == 'path':
+            from bfg9000.platforms.posix import PosixPath
+            cx.ghost('shape', case.split('/')[2])
+            cx.ghost('rz', cx.str('realized_suffix').e)
+            cx.ghost('V', z3.Const('var_ref', T.Str))
+            cx.ghost('pm', z3.Const('var_markers', T.Str))
+            return {'self': selfv, 'thing': Obj(PosixPath, {'is_path_param': True}), 'syntax': Syntax[sx]}
         if kind == 'jbos':
             self.cur_sq = case.split('/')[2]
             bits = z3.Const('bits', FR.Bits)
@@ -281,6 +357,9 @@ class Write(Contract):
     def requires(self, a):
         if self.is_jbos(a):
             return z3.BoolVal(True)
+        if self.is_path(a):
+            return T.AND(z3.Not(has_crlf(a.rz)), self.var_ok(a),
+                         z3.BoolVal(True) if a.shape == 'var' else z3.Length(a.rz) > 0)
         s = self.content(a)
         if isinstance(a.thing, Obj) and a.thing.cls is literal:
             return z3.BoolVal(True)
@@ -299,10 +378,22 @@ class Write(Contract):
             return {'text_is_concatenation_of_fragment_texts': buf == z3.Concat(a.buf0, fns.CW(bits, n)),
                     'flag_is_disjunction_of_fragment_flags': T.zbool(M.lift(r)) == fns.OE(bits, n)}
         w = written(a.self, a.buf0)
+        if self.is_path(a):
+            ok, tt = PS.reader_out(self.READER, w)
+            content = {'str': a.rz, 'var': a.pm, 'var+str': T.cat(a.pm, a.rz)}[a.shape]
+            ev = [e for e in a.events if e[0] == 'realize']
+            return {'path_realized_once_with_the_writers_variables': z3.BoolVal(
+                        len(ev) == 1 and ev[0][1][0] is a.thing and ev[0][1][1] is a.self.attrs['path_vars']),
+                    'build_tool_reads_literal_text': ok,
+                    'sh_reads_exactly_the_realized_path_as_one_fragment': frag(tt, content)}
         s = self.content(a)
         t = a.thing
+        if FR.sq_tag(a._d.get('shell_quote')) == 'inner' and not isinstance(t, Obj):
+            q = T.zbool(M.lift(r))
+            return {'text_is_dollar_doubled_inner_quoting': w == FR.dol(z3.If(q, PS.sq(s), s)),
+                    'unquoted_only_if_inert': z3.Implies(z3.Not(q), T.AND(z3.Length(s) > 0, z3.Not(PS.not_inert(s))))}
         if isinstance(t, Obj) and t.cls is literal:
-            return {'literal_verbatim': w == s}
+            return {'literal_verbatim': w == s, 'literal_counts_as_escaped': T.zbool(M.lift(r))}
         if a.syntax == Syntax.target:
             return {'make_reads_target_back': MK.word_reads(mk_target, w, s)}
         if a.syntax == Syntax.dependency:
@@ -344,18 +435,27 @@ class Write(Contract):
 
     def native_build(self, case, raw):
         import io
-        kind, sx = case.split('/')
+        parts = case.split('/')
+        kind, sx = parts[0], parts[1]
         buf0 = 'PRE'
         stream = io.StringIO()
         stream.write(buf0)
         wr = msyn.Writer(stream, {})
         selfv = Obj(msyn.Writer, {'stream': PStream(buf0), 'path_vars': None})
-        a = Args({'self': selfv, 'thing': raw['thing'], 'syntax': Syntax[sx]}, {'buf0': T.lit(buf0)})
-        return {'writer': wr, 'thing': raw['thing'], 'syntax': Syntax[sx], '_self': selfv}, a
+        d = {'self': selfv, 'thing': raw['thing'], 'syntax': Syntax[sx]}
+        extra = {}
+        if len(parts) == 3:
+            d['shell_quote'] = FR.sq_fn(parts[2])
+            extra['shell_quote'] = d['shell_quote']
+        a = Args(d, {'buf0': T.lit(buf0)})
+        return dict({'writer': wr, 'thing': raw['thing'], 'syntax': Syntax[sx], '_self': selfv}, **extra), a
 
     def native_call(self, case, call_args):
         wr = call_args['writer']
-        r = wr.write(call_args['thing'], call_args['syntax'])
+        if 'shell_quote' in call_args:
+            r = wr.write(call_args['thing'], call_args['syntax'], call_args['shell_quote'])
+        else:
+            r = wr.write(call_args['thing'], call_args['syntax'])
         call_args['_self'].attrs['stream'].buf = wr.stream.getvalue()
         return r
 
